@@ -24,6 +24,7 @@ var tmplPaths = []string{
 	"chc/ca", "chc/cb", "chc/cbc/x", "chc/cl", "chc/other",
 	"types/i8", "types/u64", "types/d3", "types/bool", "types/enu", "types/idr", "types/uni", "types/emp", "types/ll-u8", "types/ll-idr", "types/bin",
 	"plain/l1/descr", "plain/l1/mtu", "plain/l2z/v",
+	"plain/extll", "chc/nest/oi/na", "chc/nest/oi/nb", "chc/nest/oi/nb2", "chc/nest/oc",
 }
 var uni *vlib.Universe
 
